@@ -196,7 +196,7 @@ def events_for(kind, subset):
     nop = "NOPAR"
     ev = [("add", n) for n in subset] + [("add", nop), ("add2", subset[1], subset[2])]
     ev += [("run", n) for n in subset] + [("run", nop), ("runall",)]
-    ev += [("mpe", n) for n in subset] + [("saveload",), ("decoy",), ("prep",)]
+    ev += [("mpe", n) for n in subset] + [("saveload",), ("decoy",), ("prep",), ("readd", subset[-1])]
     return ev
 
 
@@ -217,7 +217,8 @@ def run_history(kind, subset, events, hist, seed, scratch, judge_all=False):
     model = {}
     nop_cls = subset[0]
     version = 0                       # data version of the setup: 0 = as constructed, 1 = after the 'prep' event (detrend_data)
-    bound = {}                        # name -> data version bound when the algorithm was added
+    bound = {}                        # name -> data version bound when the algorithm was (last) added
+    resver = {}                       # name -> data version the algorithm's present result was computed from
     refs = {n: reference(kind, n, seed, 0) for n in subset}
     for n, r in list(refs.items()) + [(n, reference(kind, n, seed, 1)) for n in subset]:
         if r[0] == "NONDET":
@@ -235,6 +236,14 @@ def run_history(kind, subset, events, hist, seed, scratch, judge_all=False):
                     stop = True        # one preprocessing step per history (every further one would need its own references)
                     break
                 ss.detrend_data()
+            elif ev[0] == "readd":
+                # the SAME algorithm object is added again (re-bound to the setup's present data); only explored while the
+                # algorithm has not been extracted from (extraction parameters chosen for the old data would stay behind)
+                if model.get(ev[1]) not in ("added", "ran"):
+                    stop = True
+                    break
+                ss.add_algorithms(ss.algorithms[ev[1]])
+                ss.run_by_name(ev[1])            # ... and run: its result must be the one of the data bound now
             elif ev[0] == "add":
                 a = noparam(kind, nop_cls, "NOPAR") if ev[1] == "NOPAR" else make(kind, ev[1], shared)
                 ss.add_algorithms(a)
@@ -248,7 +257,7 @@ def run_history(kind, subset, events, hist, seed, scratch, judge_all=False):
             elif ev[0] == "runall":
                 ss.run_all()
             elif ev[0] == "mpe":
-                ss.mpe(ev[1], **(mpe_args(kind, ev[1], bound.get(ev[1], 0)) if ev[1] != "NOPAR" else dict(sel_freq=[5.0])))
+                ss.mpe(ev[1], **(mpe_args(kind, ev[1], resver.get(ev[1], 0)) if ev[1] != "NOPAR" else dict(sel_freq=[5.0])))
             elif ev[0] == "decoy":
                 run_decoy(kind, subset, seed)
             elif ev[0] == "saveload":
@@ -273,21 +282,27 @@ def run_history(kind, subset, events, hist, seed, scratch, judge_all=False):
             if exc is None:
                 version = 1
                 d0 = data_digest(ss)      # the setup's own data changes legitimately; algorithms added before keep the old binding
+        elif ev[0] == "readd":
+            bound[ev[1]] = resver[ev[1]] = version
+            model[ev[1]] = "ran"
+            refs[ev[1]] = reference(kind, ev[1], seed, version)
         elif ev[0] == "add":
             model[ev[1]] = "added"
-            bound[ev[1]] = version
+            bound[ev[1]] = resver[ev[1]] = version
             if ev[1] != "NOPAR":
                 refs[ev[1]] = reference(kind, ev[1], seed, version)
         elif ev[0] == "add2":
             for n_ in (ev[1], ev[2]):
                 model[n_] = "added"
-                bound[n_] = version
+                bound[n_] = resver[n_] = version
                 refs[n_] = reference(kind, n_, seed, version)
         elif ev[0] == "run":
             if ev[1] not in model or ev[1] == "NOPAR":
                 expect_exc = True
             else:
                 model[ev[1]] = "ran" if model[ev[1]] == "added" else ("reran" if model[ev[1]] in ("mpe", "reran") else "ran")
+                resver[ev[1]] = bound[ev[1]]
+                refs[ev[1]] = reference(kind, ev[1], seed, bound[ev[1]])
         elif ev[0] == "runall":
             if "NOPAR" in model:
                 expect_exc = True
@@ -295,6 +310,8 @@ def run_history(kind, subset, events, hist, seed, scratch, judge_all=False):
             else:
                 for n in model:
                     model[n] = "ran" if model[n] in ("added", "ran") else "reran"
+                    resver[n] = bound[n]
+                    refs[n] = reference(kind, n, seed, bound[n])
         elif ev[0] == "mpe":
             if ev[1] == "NOPAR" or model.get(ev[1]) in (None, "added"):
                 expect_exc = True
@@ -576,7 +593,7 @@ def explore(ctx):
     finally:
         shutil.rmtree(scratch, ignore_errors=True)
     ctx.require("ok:add", "ok:run", "ok:runall", "ok:mpe", "saveload-equal", "rejected:run:NOPAR", "rejected:run:absent",
-                "rejected:mpe:ok", "rejected:runall:ok", "ok:decoy", "ok:add2", "ok:prep", "poser-accepted", "poser-rejected")
+                "rejected:mpe:ok", "rejected:runall:ok", "ok:decoy", "ok:add2", "ok:prep", "ok:readd", "poser-accepted", "poser-rejected")
 
 
 def replay(case):
